@@ -18,12 +18,14 @@ from __future__ import annotations
 
 import calendar
 import datetime
+import shutil
 import warnings
 from fractions import Fraction as F
 
 import numpy
 
 from openfisca_core import entities, holders, periods, taxbenefitsystems, variables
+from openfisca_core.experimental import MemoryConfig
 from openfisca_core.periods import DateUnit as U
 from openfisca_core.periods import Instant, Period
 from openfisca_core.simulations import SimulationBuilder
@@ -37,7 +39,8 @@ COQ_HEADER = "From Verif Require Import Cal Period SetInput Corr_C16."
 COQ_RUN = "Corr_C16.run"
 SHARD = 60
 ANCHORS = ["openfisca_core/holders/helpers.py", "openfisca_core/holders/holder.py",
-           "openfisca_core/simulations/simulation.py", "openfisca_core/data_storage/in_memory_storage.py"]
+           "openfisca_core/simulations/simulation.py", "openfisca_core/data_storage/in_memory_storage.py",
+           "openfisca_core/data_storage/on_disk_storage.py"]
 RULE = ("histories of simulation.set_input on one real Variable (float/int x day/month/year/week/weekday/eternity "
         "x divide/dispatch/no rule, optional end date) with 1..3 persons: pre-set definition-period tiles in "
         "subset patterns (none, one, all-but-one, all, random; all subsets for small tilings), then 1..3 long "
@@ -48,7 +51,11 @@ RULE = ("histories of simulation.set_input on one real Variable (float/int x day
         "divisible and non-divisible remainders; inputs as lists, float32/float64/int64 arrays and scalars, "
         "periods as Period objects or strings; plus a routing stream (no rule, mismatching units and sizes, "
         "eternity, wrong array length, unaligned and clipped starts, cross-family units, definition period "
-        "longer than the input period, end dates).  Non-trivial: at least one long input was accepted or "
+        "longer than the input period, end dates).  About a third of the tiled histories run under "
+        "MemoryConfig(max_memory_occupation=0) (every array goes to the on-disk storage; temp dir removed per "
+        "case); histories also contain delete_arrays (first tile, a random tile, a sub-range, everything) "
+        "followed by new long or short inputs, and - on disk, where the stored value is a copy - inputs passed "
+        "through ONE numpy buffer of the variable's dtype refilled in place between calls.  Non-trivial: at least one long input was accepted or "
         "refused as a contradiction; distinct as whole histories")
 TRUSTED = ["numpy float32 arithmetic on exactly representable dyadic values and int32 truncation are modelled by exact "
            "rationals / Z.quot in SetInput.v; covered by the correspondence only",
@@ -127,8 +134,11 @@ def coq_case(c):
           f"{copt(v['end'], cdate)})")
     steps = []
     for s in c["steps"]:
+        if s.get("op") == "del":
+            steps.append(f"(SDel {copt(s['p'], cperiod)})")
+            continue
         vals = clist([cq(frac(x)) for x in s["vals"]])
-        steps.append(f"({cperiod(s['p'])}, {vals}, ({cbool(s.get('add', False))}, {cbool(s.get('approx', False))}))")
+        steps.append(f"(SSet {cperiod(s['p'])} {vals} {cbool(s.get('add', False))} {cbool(s.get('approx', False))})")
     return f"(KHist {cv} {cz(c['n'])} {clist(steps)})"
 
 
@@ -157,22 +167,60 @@ def dump(holder):
     return out
 
 
+def period_arg(s):
+    P = mk_period(s["p"])
+    if s.get("as_str"):
+        txt = str(P)
+        try:
+            if periods.period(txt) == P:
+                return P, txt
+        except Exception:  # noqa: BLE001
+            pass
+    return P, P
+
+
 def run_impl(c):
     name = ensure_var(c["var"])
     sim = SimulationBuilder().build_default_simulation(_tbs, count=c["n"])
+    if c.get("disk"):
+        # legal (experimental) configuration: every array is kept on disk, none in memory
+        sim.memory_config = MemoryConfig(max_memory_occupation=0)
+    try:
+        return run_history(c, name, sim)
+    finally:
+        # remove the simulation's temp dir now (and tell the storages not to try again when collected)
+        for pop in sim.populations.values():
+            for h in pop._holders.values():
+                if h._disk_storage is not None:
+                    h._disk_storage.preserve_storage_dir = True
+        d = sim._data_storage_dir
+        if d is not None:
+            shutil.rmtree(d, ignore_errors=True)
+
+
+def run_history(c, name, sim):
     out = []
+    buffers = {}      # one array object per dtype, refilled in place (form "buf")
+    dtype = numpy.float32 if c["var"]["vt"] == "float" else numpy.int32
     for s in c["steps"]:
-        P = mk_period(s["p"])
-        arg = P
-        if s.get("as_str"):
-            txt = str(P)
-            try:
-                if periods.period(txt) == P:
-                    arg = txt
-            except Exception:  # noqa: BLE001
-                pass
+        if s.get("op") == "del":
+            if s["p"] is None:
+                sim.delete_arrays(name)
+            else:
+                sim.delete_arrays(name, period_arg(s)[1])
+            out.append([0, dump(sim.get_holder(name)), None])
+            continue
+        P, arg = period_arg(s)
+        if s.get("form") == "buf":
+            buf = buffers.get(len(s["vals"]))
+            if buf is None:
+                buf = buffers[len(s["vals"])] = numpy.zeros(len(s["vals"]), dtype=dtype)
+            buf[:] = s["vals"]
+            value = buf
+        else:
+            value = input_value(s, c["var"]["vt"])
         try:
-            sim.set_input(name, arg, input_value(s, c["var"]["vt"]))
+            sim.set_input(name, arg, value)
             status = 0
         except Exception as e:  # noqa: BLE001
             status = Err(errkind(e), f"{type(e).__name__}: {e}"[:200])
@@ -196,7 +244,9 @@ def obs_for_coq(c, obs):
         status, dmp, add = o
         diff = [kv for kv in dmp if before.get(key_of(kv[0])) != kv[1]]
         before = {key_of(k): vals for k, vals in dmp}
-        if s.get("approx"):
+        if s.get("op") == "del":
+            out.append([status, len(dmp), [compact(k) for k, _ in dmp], None])
+        elif s.get("approx"):
             out.append([status, len(dmp), [compact(k) for k, _ in diff], None])
         else:
             out.append([status, len(dmp), [[compact(k), vals] for k, vals in diff], add])
@@ -275,6 +325,18 @@ def spec_tiles(defu, P):
     raise ValueError(defu)
 
 
+def span(p):
+    """first and last day (ordinals) of a dated period"""
+    u, s, n = p
+    return datetime.date(*s).toordinal(), datetime.date(*shift(list(s), n, u)).toordinal() - 1
+
+
+def span_contains(P, k):
+    a, b = span(P)
+    c, d = span(k)
+    return a <= c and d <= b
+
+
 def key_of(encp):
     return (encp[0], tuple(encp[1]), encp[2])
 
@@ -311,6 +373,18 @@ def oracle(c, obs):
         after = {key_of(k): vals for k, vals in dmp}
         eq = lambda a, b: a == b      # noqa: E731  (replaced by [close] when binary32 cannot be exact)
         where = f"step {i} ({rule} rule, period {s['p']})"
+        if s.get("op") == "del":
+            # delete_arrays forgets exactly the stored periods contained in the given one
+            if isinstance(status, Err):
+                return f"delete-failed: {where}: {status.kind} {status.msg}"
+            if s["p"] is None or (s["p"][0] != ETER and all(k[0] != ETER for k in before)):
+                expect = {k: vals for k, vals in before.items()
+                          if not (s["p"] is None or span_contains(s["p"], k))}
+                if after != expect:
+                    return (f"delete-wrong: {where}: delete_arrays left {sorted(after.items())[:4]}.. "
+                            f"where {sorted(expect.items())[:4]}.. was expected")
+            before = after
+            continue
         if len(after) != len(dmp):
             return f"duplicate-key: {where}: a period is listed twice among the known periods"
         if rule in ("div", "dis"):
@@ -404,7 +478,7 @@ def known(c, obs, msg):
     before = {}
     for s, o in zip(c["steps"], obs):
         after = {key_of(k): vals for k, vals in o[1]}
-        if claimed(c, s) and not isinstance(o[0], Err):
+        if s.get("op") != "del" and claimed(c, s) and not isinstance(o[0], Err):
             T = spec_tiles(v["def"], s["p"])
             unknown = [t for t in T if t not in before]
             if unknown:
@@ -448,6 +522,10 @@ def nontrivial(c, o):
 def classify(c, o):
     v = c["var"]
     tag = f"{c.get('stream', '?')}:{v['vt']}:{UCOQ[v['def']]}:{v['rule']}"
+    if c.get("disk"):
+        tag += ":disk"
+    if any(s.get("op") == "del" for s in c["steps"]):
+        tag += ":del"
     if any(s.get("approx") for s in c["steps"]):
         tag += ":approx"
     if isinstance(o, Err):
@@ -465,6 +543,10 @@ def normalise(c):
     steps = []
     for s in c["steps"]:
         s = dict(s)
+        if s.get("op") == "del":
+            ref.delete(s["p"])
+            steps.append(s)
+            continue
         s.pop("approx", None)
         ref.inexact = False
         ref.set_input(s["p"], s["vals"])
@@ -495,7 +577,8 @@ def shrink(c, still_fails):
             else:
                 i += 1
         if cur["n"] > 1:
-            cand = normalise(dict(cur, n=1, steps=[dict(s, vals=s["vals"][:1]) for s in cur["steps"]]))
+            cand = normalise(dict(cur, n=1, steps=[s if s.get("op") == "del" else dict(s, vals=s["vals"][:1])
+                                                   for s in cur["steps"]]))
             if still_fails(cand):
                 cur, progress = cand, True
     return cur
@@ -507,8 +590,11 @@ def neighbours(c, rng):
         for vt in ("float", "int"):
             d = dict(c)
             d["var"] = dict(c["var"], rule=rule, vt=vt)
-            d["steps"] = [dict(s, vals=[int(frac(x)) for x in s["vals"]]) for s in c["steps"]]
+            d["steps"] = [s if s.get("op") == "del" else dict(s, vals=[int(frac(x)) for x in s["vals"]])
+                          for s in c["steps"]]
             out.append(normalise(d))
+    out.append(dict(c, disk=not c.get("disk"),
+                    steps=[dict(s, form="list") if s.get("form") == "buf" else s for s in c["steps"]]))
     for i in range(len(c["steps"])):
         out.append(normalise(dict(c, steps=c["steps"][:i + 1])))
     return out
@@ -555,6 +641,12 @@ class Ref:
             out.append((defu, tuple(cur), 1))
             cur = shift(cur, 1, defu)
         return out
+
+    def delete(self, P):
+        if P is None:
+            self.h = {}
+        else:
+            self.h = {k: v for k, v in self.h.items() if k[0] == ETER or P[0] == ETER or not span_contains(P, k)}
 
     def known_sum(self, T):
         return [sum((self.h[t][e] for t in T if t in self.h), F(0)) for e in range(self.n)]
@@ -708,8 +800,8 @@ def subset_pattern(rng, T, pattern=None):
 class Builder:
     """Accumulates the steps of one history and keeps the Fraction reference in step."""
 
-    def __init__(self, rng, var, n, stream):
-        self.rng, self.var, self.n, self.stream = rng, var, n, stream
+    def __init__(self, rng, var, n, stream, disk=False):
+        self.rng, self.var, self.n, self.stream, self.disk = rng, var, n, stream, disk
         self.ref = Ref(var, n)
         self.steps = []
         self.closed = False
@@ -721,6 +813,12 @@ class Builder:
         P = [P[0], list(P[1]), P[2]]
         if form is None:
             form, vals = rand_form(rng, v["vt"], vals, len(vals))
+            if (self.disk and rng.random() < 0.4 and len(vals) == self.n
+                    and (v["vt"] == "float" or all(frac(x).denominator == 1 for x in vals))):
+                # the caller's one buffer of the variable's dtype, refilled in place for every input
+                # (only on disk: in memory the holder keeps the very object it is given)
+                form = "buf"
+                vals = [int(frac(x)) for x in vals] if v["vt"] == "int" else [float(x) for x in vals]
         step = {"p": P, "vals": list(vals), "form": form, "role": role, "as_str": rng.random() < 0.4}
         self.ref.inexact = False
         self.ref.set_input(P, vals)
@@ -737,6 +835,13 @@ class Builder:
             step.pop("add", None)
             self.closed = True
         self.steps.append(step)
+
+    def delete(self, P):
+        if self.closed:
+            return
+        P = None if P is None else [P[0], list(P[1]), P[2]]
+        self.ref.delete(None if P is None else (P[0], tuple(P[1]), P[2]))
+        self.steps.append({"op": "del", "p": P, "as_str": self.rng.random() < 0.4})
 
     def tile_vals(self, small=False):
         return [rand_val(self.rng, self.var["vt"], small) for _ in range(self.n)]
@@ -772,7 +877,36 @@ class Builder:
         self.push(P, vals, "long")
 
     def case(self):
-        return {"var": self.var, "n": self.n, "steps": self.steps, "stream": self.stream}
+        c = {"var": self.var, "n": self.n, "steps": self.steps, "stream": self.stream}
+        if self.disk:
+            c["disk"] = True
+        return c
+
+    def forget_and_refill(self, base, T):
+        """delete_arrays on the first tile / a tile / a sub-range / the whole period / everything,
+        then give values again (long input, or the tile itself, then a long input)."""
+        rng = self.rng
+        if not T:
+            return
+        r = rng.random()
+        if r < 0.45:
+            D = T[0]
+        elif r < 0.65:
+            D = rng.choice(T)
+        elif r < 0.8:
+            D = [T[0][0], T[0][1], rng.randrange(1, min(len(T), 4) + 1)]
+        elif r < 0.92:
+            D = base
+        else:
+            D = None
+        self.delete(D)
+        r = rng.random()
+        if r < 0.5:
+            self.long(base, mode=rng.choice(["exact", "exact", "random"]))
+        else:
+            t = D if D is not None and D[2] == 1 and D[0] == self.var["def"] else T[0]
+            self.push(t, self.tile_vals(), "tile-refill")
+            self.long(base, mode=rng.choice(["exact", "contradict"]))
 
 
 def tiles_as_periods(T):
@@ -781,7 +915,7 @@ def tiles_as_periods(T):
 
 def structured(rng, var, stream, big=False, pattern=None, base=None):
     n = 1 if big else rng.choice([1, 1, 2, 2, 3])
-    b = Builder(rng, var, n, stream)
+    b = Builder(rng, var, n, stream, disk=rng.random() < 0.35)
     defu = var["def"]
     cands = long_periods(rng, defu, big)
     base = base or cands[0] if rng.random() < 0.5 or big else rng.choice(cands)
@@ -800,6 +934,8 @@ def structured(rng, var, stream, big=False, pattern=None, base=None):
         b.long(P)
         if rng.random() < 0.15 and T:
             b.push(rng.choice(T), b.tile_vals(), "tile-late")
+    if rng.random() < (0.15 if big else 0.4) and tiled_exactly(defu, base):
+        b.forget_and_refill(base, T)
     r = rng.random()
     if r < 0.35 and T and not big:
         # set a tile again: the same value (accepted) or another one (divide: refused; dispatch: ignored)
@@ -821,7 +957,7 @@ def all_subsets(rng, var, stream, base):
     T = tiles_as_periods(spec_tiles(defu, base))
     out = []
     for mask in range(1 << len(T)):
-        b = Builder(rng, var, rng.choice([1, 2]), stream)
+        b = Builder(rng, var, rng.choice([1, 2]), stream, disk=rng.random() < 0.3)
         for i, t in enumerate(T):
             if mask >> i & 1:
                 b.push(t, b.tile_vals(), "tile")
@@ -902,7 +1038,7 @@ def generate(rng, tier):
     for _ in range(40 * scale):
         defu = rng.choice([MONTH, MONTH, YEAR, WK, WD, DAY])
         var = {"vt": "int", "def": defu, "rule": "div", "end": None}
-        b = Builder(rng, var, rng.choice([1, 2]), "int-indivisible")
+        b = Builder(rng, var, rng.choice([1, 2]), "int-indivisible", disk=rng.random() < 0.3)
         base = long_periods(rng, defu)[0]
         T = tiles_as_periods(spec_tiles(defu, base))
         for t in subset_pattern(rng, T, rng.choice(["none", "one", "two", "random"])):
